@@ -1,7 +1,6 @@
 //! C09 — rendering is repeatable: no state survives from one render into another.
 use crate::cfg::{parser_with, Config, Policy};
 use crate::ctx::Ctx;
-use crate::exec::render;
 use crate::gen::prog::{pool, Opts, Pool};
 use crate::rng::{hash_combine, hash_str};
 use crate::val::dump_view;
@@ -23,7 +22,7 @@ fn standalone(p: &Pool, policy: Policy, ti: usize, di: usize) -> String {
         Err(_) => return "parser-build-error".into(),
     };
     match parser.parse(&p.mains[ti]) {
-        Ok(t) => render(&t, &p.datas[di].to_object()).summary_with_error(),
+        Ok(t) => crate::exec::render_full(&t, &p.datas[di].to_object()),
         Err(_) => "parse-error".into(),
     }
 }
@@ -38,7 +37,7 @@ fn run_history(p: &Pool, policy: Policy, hist: &[(usize, usize)], expected: &[Ve
     let mut calls = 0;
     for (step, &(ti, di)) in hist.iter().enumerate() {
         let got = match &templates[ti] {
-            Some(t) => render(t, &datas[di]).summary_with_error(),
+            Some(t) => crate::exec::render_full(t, &datas[di]),
             None => "parse-error".into(),
         };
         calls += 1;
@@ -95,7 +94,7 @@ fn add_failure_injection(p: &mut Pool, r: &mut crate::rng::Rng) {
             kv.push(("fail".into(), crate::val::RVal::Str(mode.into())));
             kv.push(("tagv".into(), crate::val::RVal::Str(format!("T{k}"))));
             // the same tag names a different partial for different data objects
-            kv.push(("pname".into(), crate::val::RVal::Str(["pg0", "pg1", "pg0.liquid"][k % 3].into())));
+            kv.push(("pname".into(), crate::val::RVal::Str(["pg0", "pg0.liquid", "pg1"][k % 3].into())));
         }
     }
 }
